@@ -10,6 +10,7 @@ TYPES = [
     'range_step',
     'list_int',
     'list_str',
+    'list_str_sp',
     'list_mixed',
     'list_numstr',
     'list_date',
@@ -30,7 +31,7 @@ def _numstr(j):
     return (2000 + j if j % 4 == 0 else j + 0.5) if j % 2 == 0 else f's{j}'
 
 
-ORDERABLE = {'list_int', 'list_str', 'np_int', 'np_str', 'pd_index_int', 'pd_index_str'}
+ORDERABLE = {'list_int', 'list_str', 'list_str_sp', 'np_int', 'np_str', 'pd_index_int', 'pd_index_str'}
 
 
 def _reorder(items, how):
@@ -71,6 +72,8 @@ def make_span(spec):
         return list(range(o, o + n))
     if ty == 'list_str':
         return [f'p{o + i}' for i in range(n)]
+    if ty == 'list_str_sp':
+        return [f'Q{(o + i) % 4 + 1} {2000 + (o + i) // 4}' for i in range(n)]  # labels with a space in them
     if ty == 'list_dup_inner':
         # a label repeated strictly inside the span (first and last labels stay unique); positional solving is unaffected
         items = [f'p{o + i}' for i in range(n)]
